@@ -42,7 +42,7 @@ def test_names(thorough):
 def cases(draw, thorough=False, procs=False):
     spec = draw(gen.worlds(max_layers=3 if procs else 2, min_layers=2 if procs else 0, hooks='layer', kinds=gen.ALL_KINDS, max_modules=2, depth=1,
                            max_tests=4, weights_good=40, layer_decl=50, explicit_unit=True, max_children=3,
-                           excs=gen.ALL_EXCS, inst_attrs=procs))
+                           excs=gen.ALL_EXCS, inst_attrs=True))
     hostile = draw(st.sampled_from(['all', 'all', 'names-only', 'none']))
     used = set()
     for node, t in gen.iter_tests(spec):
